@@ -36,6 +36,8 @@ def main(argv):
                 for api in ("getaddrinfo", "socket", "connect", "settimeout"):
                     scripts.append({"connect_fault": (api, bk)})
                 scripts.append({"send_fault": bk})
+                for after in (-1, 16, 9):       # interrupted after all / part of the request was written
+                    scripts.append({"send_fault": bk, "send_after": after})
                 if has_reply(call):
                     for pos in range(0, 14 if ctx.thorough else 8):
                         scripts.append({"recv_fault": (pos, bk), "chunk": "bytes" if pos % 2 else "rand"})
